@@ -6,9 +6,11 @@ def spec(fn):
     return fn
 
 
-def recspec(args, ret, post=None):
+def recspec(args, ret, post=None, opaque=False):
+    """opaque=True: the definition is hidden (an uninterpreted function) unless a behaviour `reveal`s it"""
     def deco(fn):
         fn._spec_post = post
+        fn._spec_opaque = opaque
         fn._spec_kind = "rec"
         fn._spec_args = tuple(args)
         fn._spec_ret = ret
